@@ -1,7 +1,649 @@
 package main
 
-import "strings"
+// Native model of badger v2 (DESIGN Appendix E): snapshot transactions with
+// read sets, optimistic conflict detection at commit, TTL entries, ordered
+// prefix iteration; plus the gob / bytes.Buffer / bytes.Reader glue of
+// pool/store/badger/helpers.go as a typed-blob model with gob's merge
+// semantics, and the few reflect calls loopItem makes.
 
-type kvDB struct{}
+import (
+	"fmt"
+	"go/types"
+	"sort"
+	"strings"
+)
 
-func (k *kvDB) snap(m *Machine, sb *strings.Builder, sn *SnapVal, seen map[*Obj]int, depth int) {}
+const badgerPkg = "github.com/dgraph-io/badger/v2"
+
+type kvVersion struct {
+	ts      int
+	blob    *Blob
+	deleted bool
+	expires *Term // unix seconds; nil = never
+}
+
+type kvDB struct {
+	id       int
+	keys     map[string][]*kvVersion
+	commitTs int
+	commits  int
+	crashes  bool
+	txns     int
+}
+
+type kvTxn struct {
+	db      *kvDB
+	update  bool
+	readTs  int
+	reads   map[string]bool
+	writes  map[string]*kvVersion
+	done    bool
+	nWrites int
+}
+
+type kvItem struct {
+	key string
+	ver *kvVersion
+}
+
+type kvIter struct {
+	txn    *kvTxn
+	keys   []string
+	pos    int
+	closed bool
+}
+
+type kvEntry struct {
+	key     string
+	blob    *Blob
+	expires *Term
+}
+
+type gobEncoder struct{ dst PtrVal }
+type gobDecoder struct{ src Value }
+type bytesReader struct{ data Value }
+
+func (k *kvDB) snap(m *Machine, sb *strings.Builder, sn *SnapVal, seen map[*Obj]int, depth int) {
+	var ks []string
+	for key := range k.keys {
+		ks = append(ks, key)
+	}
+	sort.Strings(ks)
+	sb.WriteString("kv{")
+	for _, key := range ks {
+		vs := k.keys[key]
+		if len(vs) == 0 {
+			continue
+		}
+		v := vs[len(vs)-1]
+		if v.deleted {
+			continue
+		}
+		sb.WriteString(key + "=")
+		m.snapWalk(v.blob.v, sb, sn, seen, depth+1)
+		if v.expires != nil {
+			sb.WriteString("@")
+			m.snapWalk(v.expires, sb, sn, seen, depth+1)
+		}
+		sb.WriteString(";")
+	}
+	sb.WriteString("}")
+}
+
+func (m *Machine) nativeOf(v Value, what string) interface{} {
+	p, ok := v.(PtrVal)
+	if !ok || p.obj == nil {
+		panic(goPanic{msg: "nil pointer dereference (" + what + ")"})
+	}
+	return p.obj.v
+}
+
+func (m *Machine) nativePtr(x interface{}, name string) Value {
+	return PtrVal{obj: m.newObj(x, nil, name)}
+}
+
+func keyOf(v Value) string {
+	b, ok := concreteBytes(v)
+	if !ok {
+		panic(abortf("badger key must be concrete bytes, got %s", describe(v)))
+	}
+	return string(b)
+}
+
+func (m *Machine) badgerErr(name string) Value {
+	sp := m.ld.ssaPkgs[badgerPkg]
+	if sp == nil {
+		panic(abortf("badger package not loaded"))
+	}
+	g := sp.Var(name)
+	return m.load(PtrVal{obj: m.global(g)})
+}
+
+func (m *Machine) nowUnix() *Term { return tEDiv(m.clock, mkInt(1000000000)) }
+
+// visible decides (forking on the clock when needed) whether a version is live.
+func (m *Machine) kvLive(v *kvVersion) bool {
+	if v == nil || v.deleted {
+		return false
+	}
+	if v.expires == nil {
+		return true
+	}
+	// badger: expired iff ExpiresAt <= now (unix seconds)
+	return m.branch(tGt(v.expires, m.nowUnix()))
+}
+
+func (t *kvTxn) committedAt(key string) *kvVersion {
+	vs := t.db.keys[key]
+	for i := len(vs) - 1; i >= 0; i-- {
+		if vs[i].ts <= t.readTs {
+			return vs[i]
+		}
+	}
+	return nil
+}
+
+func (m *Machine) kvGet(t *kvTxn, key string, track bool) *kvVersion {
+	if w, ok := t.writes[key]; ok {
+		if m.kvLive(w) {
+			return w
+		}
+		return nil
+	}
+	if t.update && track {
+		t.reads[key] = true
+	}
+	v := t.committedAt(key)
+	if m.kvLive(v) {
+		return v
+	}
+	return nil
+}
+
+func (m *Machine) kvCommit(t *kvTxn) Value {
+	t.done = true
+	if len(t.writes) == 0 {
+		return IfaceVal{}
+	}
+	for key := range t.reads {
+		vs := t.db.keys[key]
+		if len(vs) > 0 && vs[len(vs)-1].ts > t.readTs {
+			m.kvConflicts++
+			return m.badgerErr("ErrConflict")
+		}
+	}
+	t.db.commitTs++
+	t.db.commits++
+	for key, w := range t.writes {
+		w.ts = t.db.commitTs
+		t.db.keys[key] = append(t.db.keys[key], w)
+	}
+	return IfaceVal{}
+}
+
+func (m *Machine) kvRun(g *Goroutine, c *callCtx, update bool) (Value, stepStatus) {
+	db := m.nativeOf(c.args[0], "badger.DB").(*kvDB)
+	// yield point at begin: another transaction may commit before our snapshot
+	if !g.atSched {
+		if m.maybePreempt(g) {
+			return nil, stBlocked
+		}
+	}
+	t := &kvTxn{db: db, update: update, readTs: db.commitTs, reads: map[string]bool{}, writes: map[string]*kvVersion{}}
+	db.txns++
+	fn := c.args[1].(FuncVal)
+	m.callClosure(g, fn, []Value{m.nativePtr(t, "txn")}, func(ret Value) {
+		if iv, ok := ret.(IfaceVal); ok && iv.typ != nil {
+			t.done = true
+			c.deliver(ret)
+			return
+		}
+		if !update {
+			t.done = true
+			c.deliver(IfaceVal{})
+			return
+		}
+		// the commit is its own scheduling point (reached via a tiny native continuation)
+		m.pendingCommits = append(m.pendingCommits, pendingCommit{g: g, t: t, deliver: c.deliver})
+		g.commitPending = true
+		g.atSched = false
+	})
+	return nil, stStay
+}
+
+type pendingCommit struct {
+	g       *Goroutine
+	t       *kvTxn
+	deliver func(Value)
+}
+
+// runPendingCommit commits (crash choice first when enabled).
+func (m *Machine) runPendingCommit(g *Goroutine) {
+	for i, pc := range m.pendingCommits {
+		if pc.g != g {
+			continue
+		}
+		m.pendingCommits = append(m.pendingCommits[:i], m.pendingCommits[i+1:]...)
+		g.commitPending = false
+		if m.crashFn != nil && len(pc.t.writes) > 0 {
+			switch m.choose(3, "crash") {
+			case 1: // process killed before the commit
+				m.doCrash(g)
+				return
+			case 2: // killed right after the commit, before the call returns
+				r := m.kvCommit(pc.t)
+				_ = r
+				m.doCrash(g)
+				return
+			}
+		}
+		pc.deliver(m.kvCommit(pc.t))
+		return
+	}
+}
+
+// doCrash abandons everything in flight and runs the harness's crash handler on the committed state.
+func (m *Machine) doCrash(g *Goroutine) {
+	fn := *m.crashFn
+	m.crashFn = nil
+	m.crashed = true
+	g.frames = nil
+	g.wait, g.waitMu, g.waitFn = nil, nil, nil
+	for _, o := range m.gs {
+		if o != g {
+			o.done = true
+		}
+	}
+	m.pushFrame(g, fn.fn, nil, fn.bind, nil, func(Value) {
+		panic(pathEnd{"crash-handled"})
+	})
+}
+
+func init() {
+	// ---- harness entry: a fresh database ----
+	regV(apiPkg+".KVOpen", func(m *Machine, g *Goroutine, a []Value) Value {
+		m.nextID++
+		return m.nativePtr(&kvDB{id: m.nextID, keys: map[string][]*kvVersion{}}, "kvdb")
+	})
+	regV(repoMod+"/pool/store/badger.verifDB", func(m *Machine, g *Goroutine, a []Value) Value {
+		m.nextID++
+		return m.nativePtr(&kvDB{id: m.nextID, keys: map[string][]*kvVersion{}}, "kvdb")
+	})
+	regV(apiPkg+".KVConflicts", func(m *Machine, g *Goroutine, a []Value) Value { return mkInt(int64(m.kvConflicts)) })
+	regV(apiPkg+".KVCommits", func(m *Machine, g *Goroutine, a []Value) Value {
+		db := m.nativeOf(a[0], "KVCommits").(*kvDB)
+		return mkInt(int64(db.commits))
+	})
+	regV(apiPkg+".OnCrash", func(m *Machine, g *Goroutine, a []Value) Value {
+		fv := a[0].(FuncVal)
+		m.crashFn = &fv
+		return nil
+	})
+	regV(apiPkg+".NoCrash", func(m *Machine, g *Goroutine, a []Value) Value { m.crashFn = nil; return nil })
+
+	reg("(*"+badgerPkg+".DB).Update", func(m *Machine, g *Goroutine, c *callCtx) (Value, stepStatus) { return m.kvRun(g, c, true) })
+	reg("(*"+badgerPkg+".DB).View", func(m *Machine, g *Goroutine, c *callCtx) (Value, stepStatus) { return m.kvRun(g, c, false) })
+	regV("(*"+badgerPkg+".DB).Close", func(m *Machine, g *Goroutine, a []Value) Value { return IfaceVal{} })
+
+	regV("(*"+badgerPkg+".Txn).Get", func(m *Machine, g *Goroutine, a []Value) Value {
+		t := m.nativeOf(a[0], "Txn.Get").(*kvTxn)
+		key := keyOf(a[1])
+		if v := m.kvGet(t, key, true); v != nil {
+			return TupleVal{m.nativePtr(&kvItem{key: key, ver: v}, "item"), IfaceVal{}}
+		}
+		return TupleVal{PtrVal{}, m.badgerErr("ErrKeyNotFound")}
+	})
+	set := func(m *Machine, t *kvTxn, key string, blob *Blob, expires *Term) Value {
+		if !t.update {
+			return m.badgerErr("ErrReadOnlyTxn")
+		}
+		t.writes[key] = &kvVersion{blob: blob, expires: expires}
+		t.nWrites++
+		return IfaceVal{}
+	}
+	regV("(*"+badgerPkg+".Txn).Set", func(m *Machine, g *Goroutine, a []Value) Value {
+		t := m.nativeOf(a[0], "Txn.Set").(*kvTxn)
+		bl := blobOf(a[2])
+		if bl == nil {
+			b, ok := concreteBytes(a[2])
+			if !ok {
+				panic(abortf("Txn.Set: value is neither a blob nor concrete bytes"))
+			}
+			bl = &Blob{kind: "raw", raw: string(b), v: StrVal{s: string(b)}}
+		}
+		return set(m, t, keyOf(a[1]), bl, nil)
+	})
+	regV(badgerPkg+".NewEntry", func(m *Machine, g *Goroutine, a []Value) Value {
+		bl := blobOf(a[1])
+		if bl == nil {
+			panic(abortf("NewEntry: value is not a blob"))
+		}
+		return m.nativePtr(&kvEntry{key: keyOf(a[0]), blob: bl}, "entry")
+	})
+	regV("(*"+badgerPkg+".Entry).WithTTL", func(m *Machine, g *Goroutine, a []Value) Value {
+		e := m.nativeOf(a[0], "WithTTL").(*kvEntry)
+		// ExpiresAt = uint64(time.Now().Add(dur).Unix()), fixed when WithTTL is called
+		e.expires = tEDiv(tAdd(m.clock, a[1].(*Term)), mkInt(1000000000))
+		return a[0]
+	})
+	regV("(*"+badgerPkg+".Txn).SetEntry", func(m *Machine, g *Goroutine, a []Value) Value {
+		t := m.nativeOf(a[0], "SetEntry").(*kvTxn)
+		e := m.nativeOf(a[1], "SetEntry").(*kvEntry)
+		return set(m, t, e.key, e.blob, e.expires)
+	})
+	regV("(*"+badgerPkg+".Txn).Delete", func(m *Machine, g *Goroutine, a []Value) Value {
+		t := m.nativeOf(a[0], "Txn.Delete").(*kvTxn)
+		if !t.update {
+			return m.badgerErr("ErrReadOnlyTxn")
+		}
+		t.writes[keyOf(a[1])] = &kvVersion{deleted: true}
+		t.nWrites++
+		return IfaceVal{}
+	})
+	regV("(*"+badgerPkg+".Item).Key", func(m *Machine, g *Goroutine, a []Value) Value {
+		it := m.nativeOf(a[0], "Item.Key").(*kvItem)
+		return m.bytesSlice([]byte(it.key))
+	})
+	regV("(*"+badgerPkg+".Item).KeyCopy", func(m *Machine, g *Goroutine, a []Value) Value {
+		it := m.nativeOf(a[0], "Item.KeyCopy").(*kvItem)
+		return m.bytesSlice([]byte(it.key))
+	})
+	reg("(*"+badgerPkg+".Item).Value", func(m *Machine, g *Goroutine, c *callCtx) (Value, stepStatus) {
+		it := m.nativeOf(c.args[0], "Item.Value").(*kvItem)
+		m.callClosure(g, c.args[1].(FuncVal), []Value{m.blobSlice(it.ver.blob)}, func(ret Value) { c.deliver(ret) })
+		return nil, stStay
+	})
+	regV("(*"+badgerPkg+".Txn).NewIterator", func(m *Machine, g *Goroutine, a []Value) Value {
+		t := m.nativeOf(a[0], "NewIterator").(*kvTxn)
+		set := map[string]bool{}
+		for k := range t.db.keys {
+			set[k] = true
+		}
+		for k := range t.writes {
+			set[k] = true
+		}
+		var ks []string
+		for k := range set {
+			ks = append(ks, k)
+		}
+		sort.Strings(ks)
+		return m.nativePtr(&kvIter{txn: t, keys: ks, pos: len(ks)}, "iter")
+	})
+	// skip positions whose key is not visible
+	settle := func(m *Machine, it *kvIter) {
+		for it.pos < len(it.keys) {
+			if m.kvGet(it.txn, it.keys[it.pos], false) != nil {
+				return
+			}
+			it.pos++
+		}
+	}
+	regV("(*"+badgerPkg+".Iterator).Seek", func(m *Machine, g *Goroutine, a []Value) Value {
+		it := m.nativeOf(a[0], "Seek").(*kvIter)
+		p := keyOf(a[1])
+		it.pos = sort.SearchStrings(it.keys, p)
+		settle(m, it)
+		return nil
+	})
+	regV("(*"+badgerPkg+".Iterator).Rewind", func(m *Machine, g *Goroutine, a []Value) Value {
+		it := m.nativeOf(a[0], "Rewind").(*kvIter)
+		it.pos = 0
+		settle(m, it)
+		return nil
+	})
+	regV("(*"+badgerPkg+".Iterator).Valid", func(m *Machine, g *Goroutine, a []Value) Value {
+		it := m.nativeOf(a[0], "Valid").(*kvIter)
+		return mkBool(it.pos < len(it.keys))
+	})
+	regV("(*"+badgerPkg+".Iterator).ValidForPrefix", func(m *Machine, g *Goroutine, a []Value) Value {
+		it := m.nativeOf(a[0], "ValidForPrefix").(*kvIter)
+		return mkBool(it.pos < len(it.keys) && strings.HasPrefix(it.keys[it.pos], keyOf(a[1])))
+	})
+	regV("(*"+badgerPkg+".Iterator).Next", func(m *Machine, g *Goroutine, a []Value) Value {
+		it := m.nativeOf(a[0], "Next").(*kvIter)
+		it.pos++
+		settle(m, it)
+		return nil
+	})
+	regV("(*"+badgerPkg+".Iterator).Item", func(m *Machine, g *Goroutine, a []Value) Value {
+		it := m.nativeOf(a[0], "Iterator.Item").(*kvIter)
+		if it.pos >= len(it.keys) {
+			return PtrVal{}
+		}
+		key := it.keys[it.pos]
+		v := m.kvGet(it.txn, key, false)
+		if it.txn.update {
+			it.txn.reads[key] = true
+		}
+		return m.nativePtr(&kvItem{key: key, ver: v}, "item")
+	})
+	regV("(*"+badgerPkg+".Iterator).Close", func(m *Machine, g *Goroutine, a []Value) Value { return nil })
+
+	// ---- gob over bytes.Buffer / bytes.Reader ----
+	regV("encoding/gob.NewEncoder", func(m *Machine, g *Goroutine, a []Value) Value {
+		iv := a[0].(IfaceVal)
+		p, ok := iv.v.(PtrVal)
+		if !ok {
+			panic(abortf("gob.NewEncoder on %s", describe(a[0])))
+		}
+		return m.nativePtr(&gobEncoder{dst: p}, "gobenc")
+	})
+	regV("(*encoding/gob.Encoder).Encode", func(m *Machine, g *Goroutine, a []Value) Value {
+		e := m.nativeOf(a[0], "gob.Encode").(*gobEncoder)
+		iv, ok := a[1].(IfaceVal)
+		if !ok || iv.typ == nil {
+			return m.freshError("gob: cannot encode nil value")
+		}
+		val := iv.v
+		typ := iv.typ
+		if pt, ok := typ.Underlying().(*types.Pointer); ok {
+			p := iv.v.(PtrVal)
+			if p.obj == nil {
+				return m.freshError("gob: cannot encode nil pointer")
+			}
+			val = m.load(p)
+			typ = pt.Elem()
+		}
+		m.bufBlobs[e.dst.obj] = &Blob{kind: "gob", v: m.deepCopy(val, map[*Obj]*Obj{}), typ: typ}
+		return IfaceVal{}
+	})
+	regV("(*bytes.Buffer).Bytes", func(m *Machine, g *Goroutine, a []Value) Value {
+		p := a[0].(PtrVal)
+		if bl, ok := m.bufBlobs[p.obj]; ok {
+			return m.blobSlice(bl)
+		}
+		return m.bytesSlice([]byte(m.builders[p.obj]))
+	})
+	regV("bytes.NewReader", func(m *Machine, g *Goroutine, a []Value) Value {
+		return m.nativePtr(&bytesReader{data: a[0]}, "bytesreader")
+	})
+	regV("encoding/gob.NewDecoder", func(m *Machine, g *Goroutine, a []Value) Value {
+		iv := a[0].(IfaceVal)
+		r, ok := m.nativeOf(iv.v, "gob.NewDecoder").(*bytesReader)
+		if !ok {
+			panic(abortf("gob.NewDecoder on a reader that is not bytes.Reader"))
+		}
+		return m.nativePtr(&gobDecoder{src: r.data}, "gobdec")
+	})
+	regV("(*encoding/gob.Decoder).Decode", func(m *Machine, g *Goroutine, a []Value) Value {
+		d := m.nativeOf(a[0], "gob.Decode").(*gobDecoder)
+		bl := blobOf(d.src)
+		if bl == nil || bl.kind != "gob" {
+			return m.freshError("gob: decode of non-gob data")
+		}
+		iv, ok := a[1].(IfaceVal)
+		if !ok || iv.typ == nil {
+			return m.freshError("gob: decode into nil")
+		}
+		pt, ok := iv.typ.Underlying().(*types.Pointer)
+		if !ok {
+			return m.freshError("gob: attempt to decode into a non-pointer")
+		}
+		st := bl.typ.(types.Type)
+		if !types.Identical(st.Underlying(), pt.Elem().Underlying()) {
+			return m.freshError(fmt.Sprintf("gob: type mismatch: %s into %s", st, pt.Elem()))
+		}
+		p := iv.v.(PtrVal)
+		cur := m.load(p)
+		m.store(p, m.gobMerge(cur, m.deepCopy(bl.v, map[*Obj]*Obj{}), true))
+		return IfaceVal{}
+	})
+
+	// ---- the reflect calls of loopItem (reset *into to its zero value) ----
+	regV("reflect.ValueOf", func(m *Machine, g *Goroutine, a []Value) Value {
+		iv, ok := a[0].(IfaceVal)
+		if !ok || iv.typ == nil {
+			return &ReflVal{}
+		}
+		return &ReflVal{typ: iv.typ, v: iv.v}
+	})
+	regV("(reflect.Value).Elem", func(m *Machine, g *Goroutine, a []Value) Value {
+		r := a[0].(*ReflVal)
+		switch t := r.typ.Underlying().(type) {
+		case *types.Pointer:
+			p := r.v.(PtrVal)
+			if p.obj == nil {
+				return &ReflVal{}
+			}
+			return &ReflVal{typ: t.Elem(), v: m.load(p), addr: &p}
+		case *types.Interface:
+			iv := r.v.(IfaceVal)
+			return &ReflVal{typ: iv.typ, v: iv.v}
+		}
+		panic(goPanic{msg: "reflect: call of reflect.Value.Elem on non-pointer Value"})
+	})
+	regV("(reflect.Value).Type", func(m *Machine, g *Goroutine, a []Value) Value {
+		r := a[0].(*ReflVal)
+		return m.reflTypeIface(r.typ)
+	})
+	regV("reflect.Zero", func(m *Machine, g *Goroutine, a []Value) Value {
+		t := reflTypeOf(a[0])
+		return &ReflVal{typ: t, v: m.zero(t)}
+	})
+	regV("(reflect.Value).Set", func(m *Machine, g *Goroutine, a []Value) Value {
+		r := a[0].(*ReflVal)
+		x := a[1].(*ReflVal)
+		if r.addr == nil {
+			panic(goPanic{msg: "reflect: reflect.Value.Set using unaddressable value"})
+		}
+		m.store(*r.addr, x.v)
+		return nil
+	})
+}
+
+// gobMerge reproduces gob's decode-into-existing-value behaviour: zero-valued
+// plain fields are not transmitted and leave the destination untouched;
+// GobEncoder types (big.Int, time.Time) and top-level non-struct values are
+// always overwritten; maps are merged key-wise.
+func (m *Machine) gobMerge(dst, src Value, top bool) Value {
+	switch s := src.(type) {
+	case StructVal:
+		d, ok := dst.(StructVal)
+		if !ok || len(d.f) != len(s.f) {
+			return src
+		}
+		f := make([]Value, len(s.f))
+		for i := range f {
+			f[i] = m.gobMerge(d.f[i], s.f[i], false)
+		}
+		return StructVal{f}
+	case BigVal, TimeVal:
+		return src
+	case *Term:
+		if top {
+			return src
+		}
+		d, ok := dst.(*Term)
+		if !ok {
+			return src
+		}
+		var zero *Term
+		if s.sort == SBool {
+			zero = tFalse
+		} else {
+			zero = mkInt(0)
+		}
+		if d.isConst() && tEq(d, zero).isTrue() {
+			return src
+		}
+		return tIte(tEq(s, zero), d, s)
+	case StrVal:
+		if top {
+			return src
+		}
+		d, ok := dst.(StrVal)
+		if !ok {
+			return src
+		}
+		if s.concrete() {
+			if s.s == "" {
+				return d
+			}
+			return src
+		}
+		if d.concrete() && d.s == "" {
+			return src
+		}
+		panic(abortf("gob merge of a symbolic string into a non-empty destination"))
+	case MapVal:
+		d, ok := dst.(MapVal)
+		if !ok || d.m == nil {
+			return src
+		}
+		if s.m == nil {
+			return dst
+		}
+		for i := range s.m.keys {
+			m.mapSet(d.m, s.m.keys[i], s.m.vals[i])
+		}
+		return dst
+	case SliceVal:
+		if s.arr == nil || s.len == 0 {
+			if top {
+				return src
+			}
+			return dst
+		}
+		return src
+	case PtrVal:
+		if s.obj == nil && !top {
+			return dst
+		}
+		return src
+	}
+	return src
+}
+
+// ---- minimal reflect values ----
+
+type ReflVal struct {
+	typ  types.Type
+	v    Value
+	addr *PtrVal
+}
+
+type ReflType struct{ t types.Type }
+
+func (r *ReflType) implements(it *types.Interface) bool { return true }
+func (r *ReflType) invoke(m *Machine, g *Goroutine, method string, args []Value) (Value, stepStatus) {
+	return m.reflTypeMethod(r, method, args), stNext
+}
+
+func (m *Machine) reflTypeIface(t types.Type) Value {
+	if t == nil {
+		return IfaceVal{}
+	}
+	return IfaceVal{typ: m.ld.reflMarker, v: &ReflType{t: t}}
+}
+
+func reflTypeOf(v Value) types.Type {
+	iv, ok := v.(IfaceVal)
+	if !ok || iv.typ == nil {
+		panic(goPanic{msg: "reflect: nil Type"})
+	}
+	rt, ok := iv.v.(*ReflType)
+	if !ok {
+		panic(abortf("foreign reflect.Type %s", describe(v)))
+	}
+	return rt.t
+}
